@@ -137,10 +137,10 @@ End VoterHonest.
 (* the C03 voter at (7,1): prevotes its best block 1, sees a prevote quorum for
    block 2, precommits 2 *)
 Definition x_env : C3.env :=
-  C3.mkEnv 0 [(7, 1, C2.Prevote, (1, 4, C3.Chamber)); (7, 1, C2.Precommit, (1, 4, C3.Chamber))]%N true false true true.
+  C3.mkEnv 0 [(7, 1, C2.Prevote, (1, 4, C3.Chamber)); (7, 1, C2.Precommit, (1, 4, C3.Chamber))]%N true false true true false [(1, 7, 1, C2.Prevote, 2)]%N.
 Definition x_ops : list C3.op :=
   [C3.Cache 1 true; C3.Cache 2 true; C3.Ctx 7 1 2 false (Some (1, 1));
-   C3.Msg (C3.mkMsg C3.Same C2.Prevote 7 1 2 1 1 true 2 false (Some (4, C3.Chamber)) (C3.CredGiven true))]%N.
+   C3.Msg (C3.mkMsg C3.Same C2.Prevote 7 1 2 1 1 true 2 false (Some (4, C3.Chamber)) 1)]%N.
 Definition x_hist : N -> option history := fun pk => if N.eqb pk 1 then Some (x_env, x_ops) else None.
 
 Lemma x_history_events :
@@ -170,3 +170,51 @@ Lemma x_accepted :
   exists res', process_evidences fx_now x_vf w_cfg x_chain 7 8 [x_evidence] w_state = Some res'
                /\ r_processed res' = [9%N].
 Proof. eexists. split; vm_compute; reflexivity. Qed.
+
+(* ---- the in-Coq check on real voter lives (Model.votes_ok) is the conclusion of C03_voter_one_vote --- *)
+(* the harness hands every vote a real Voter process sent over a life with
+   restarts and crashes to [votes_ok] (case mode MVotes); here: every history of
+   the Voter model passes that test, so a real life that fails it is not a
+   history of the model the composed theorems speak about *)
+Definition votes_of (ev : list C3.event) : list (N * N * N * N) :=
+  flat_map (fun e => match e with C3.ESend t r i h _ _ => [(kind_code t, r, i, h)] | _ => [] end) ev.
+
+Lemma kind_eqb_code t t' : N.eqb (kind_code t) (kind_code t') = C2.kind_eqb t t'.
+Proof. destruct t, t'; reflexivity. Qed.
+
+Lemma slot_count_le t r i h : forall l,
+  (length (filter (same_slot (kind_code t, r, i, h)) (votes_of l))
+   <= C2.count_votes t (C2.enc r i) (C3E.sends l))%nat.
+Proof.
+  induction l as [|e l IH]; [simpl; lia|].
+  change (e :: l) with ([e] ++ l).
+  unfold votes_of. rewrite flat_map_app. fold (votes_of l). rewrite filter_app, app_length.
+  rewrite C3E.sends_app, count_app.
+  assert (Hh : (length (filter (same_slot (kind_code t, r, i, h)) (votes_of [e]))
+                <= C2.count_votes t (C2.enc r i) (C3E.sends [e]))%nat).
+  { destruct e as [t' r' i' h' p' n'| | | |]; try (simpl; lia).
+    unfold votes_of, C3E.sends, C2.count_votes. simpl.
+    rewrite kind_eqb_code.
+    destruct (C2.kind_eqb t t') eqn:Ek; simpl.
+    - assert (Ek' : C2.kind_eqb t' t = true) by (destruct t, t'; simpl in *; congruence). rewrite Ek'. simpl.
+      destruct (N.eqb r r') eqn:Er; simpl; [|lia].
+      destruct (N.eqb i i') eqn:Ei; simpl; [|lia].
+      apply N.eqb_eq in Er, Ei. subst. rewrite N.eqb_refl. simpl. lia.
+    - lia. }
+  unfold votes_of in Hh. lia.
+Qed.
+
+Lemma vote_limit_code t : vote_limit (kind_code t) = C2.limit t.
+Proof. destruct t; reflexivity. Qed.
+
+Theorem history_votes_ok (hs : history) :
+  votes_ok (votes_of (C3E.all_events (fst hs) C3.init_voter (snd hs))) = true.
+Proof.
+  unfold votes_ok. apply forallb_forall. intros v Hin.
+  unfold votes_of in Hin. apply in_flat_map in Hin as (e & _ & He).
+  destruct e as [t r i h p n| | | |]; simpl in He; try tauto.
+  destruct He as [<-|[]]. simpl fst.
+  apply Nat.leb_le. rewrite vote_limit_code.
+  etransitivity; [apply slot_count_le|].
+  apply (VF.C03.Properties.C03_voter_one_vote (fst hs) (snd hs) t (C2.enc r i)).
+Qed.
